@@ -3,6 +3,8 @@
     type stay as extracted). *)
 From Coq Require Import Extraction ExtrOcamlBasic.
 From AV.Model Require Import Base Bytes Vec Ops Interp.
+From AV.Spec Require Import WorldSpec.
+From AV.Proofs Require Import Track.
 Extraction Language OCaml.
-Extraction "model.ml" run_step init_world world_lens world_caps world_snaps world_events world_raw
+Extraction "model.ml" spec_track run_step init_world world_lens world_caps world_snaps world_events world_raw
   N.of_nat N.to_nat N.add N.mul N.succ.
